@@ -27,7 +27,7 @@ var Prop = &engine.Prop{
 		"LRU capacity is chosen so that no shard ever evicts (per-shard capacity is C04's subject); lock and semaphore programs never block (a blocking acquire is issued only when both structures visibly have room)",
 		"Hit() and ToBytes() of the key types used are pure functions of the key value",
 	},
-	ShardsQuick: 4, ShardsThorough: 48,
+	ShardsQuick: 4, ShardsThorough: 16,
 	WatchdogQuick: 5 * time.Minute, WatchdogThorough: 135 * time.Minute,
 	Kinds: []engine.Kind{
 		{Name: "index", Quick: 2400, Thorough: 216000, Fn: indexCase},
